@@ -199,3 +199,300 @@ theorem gr_sub_inplace_eq (a b : List Nat) (m : Modulus) (h : a.length ≤ b.len
   cases (List.range' 0 a.length).mapM (fun j => subMod (a.getD j 0) (b.getD j 0) m) with
   | error e => rfl
   | ok ys => rfl
+
+/-! ### flat buffers: `[component i][coefficient j]` at `i * n + j` -/
+
+theorem gr_flat_length (n : Nat) : ∀ (cs : List (List Nat)), (∀ c ∈ cs, c.length = n) → cs.flatten.length = cs.length * n := by
+  intro cs
+  induction cs with
+  | nil => intro _; simp
+  | cons c cs ih =>
+    intro h
+    rw [List.flatten_cons, List.length_append, ih (fun x hx => h x (by simp [hx])), h c (by simp), List.length_cons, Nat.succ_mul]; omega
+
+theorem gr_flat_drop_take (n : Nat) : ∀ (cs : List (List Nat)) (i : Nat), (∀ c ∈ cs, c.length = n) → i < cs.length →
+    (cs.flatten.drop (i * n)).take n = cs.getD i [] := by
+  intro cs
+  induction cs with
+  | nil => intro i _ hi; simp at hi
+  | cons c cs ih =>
+    intro i h hi
+    have hc := h c (by simp)
+    rw [List.flatten_cons]
+    cases i with
+    | zero => rw [Nat.zero_mul, List.drop_zero, List.take_left' hc]; rfl
+    | succ i =>
+      rw [Nat.succ_mul, Nat.add_comm, ← List.drop_drop, List.drop_left' hc, List.getD_cons_succ]
+      exact ih i (fun x hx => h x (by simp [hx])) (by simpa using hi)
+
+theorem gr_slice_flat (n : Nat) (cs : List (List Nat)) (i : Nat) (h : ∀ c ∈ cs, c.length = n) (hi : i < cs.length) :
+    GenR.slice cs.flatten (i * n) (i * n + n) = .ok (cs.getD i []) := by
+  unfold GenR.slice
+  have hl := gr_flat_length n cs h
+  have : i * n + n ≤ cs.length * n := by
+    have := Nat.mul_le_mul_right n (Nat.succ_le_of_lt hi)
+    rw [Nat.succ_mul] at this; exact this
+  rw [if_pos ⟨by omega, by omega⟩, Nat.add_sub_cancel_left, gr_flat_drop_take n cs i h hi]
+
+theorem gr_splice_flat (n : Nat) : ∀ (cs : List (List Nat)) (i : Nat) (new : List Nat), (∀ c ∈ cs, c.length = n) → i < cs.length →
+    new.length = n → GenR.splice cs.flatten (i * n) new = (cs.set i new).flatten := by
+  intro cs
+  induction cs with
+  | nil => intro i _ _ hi; simp at hi
+  | cons c cs ih =>
+    intro i new h hi hn
+    have hc := h c (by simp)
+    unfold GenR.splice
+    rw [List.flatten_cons]
+    cases i with
+    | zero =>
+      rw [Nat.zero_mul, List.take_zero, Nat.zero_add, hn, List.drop_left' hc]; rfl
+    | succ i =>
+      have e1 : (i + 1) * n = c.length + i * n := by rw [Nat.succ_mul, hc]; omega
+      rw [List.set_cons_succ, List.flatten_cons, e1, List.take_append, List.drop_append,
+        List.take_of_length_le (by omega), List.drop_eq_nil_of_le (by omega)]
+      have e2 : c.length + i * n - c.length = i * n := by omega
+      have e3 : c.length + i * n + new.length - c.length = i * n + new.length := by omega
+      rw [e2, e3, List.nil_append, List.append_assoc, List.append_assoc]
+      have := ih i new (fun x hx => h x (by simp [hx])) (by simpa using hi) hn
+      unfold GenR.splice at this
+      rw [List.append_assoc] at this
+      rw [this]
+
+theorem gr_set_length_mem (n : Nat) (cs : List (List Nat)) (i : Nat) (new : List Nat) (h : ∀ c ∈ cs, c.length = n) (hn : new.length = n) :
+    ∀ c ∈ cs.set i new, c.length = n := by
+  intro c hc
+  rcases List.mem_or_eq_of_mem_set hc with h1 | h1
+  · exact h c h1
+  · rw [h1]; exact hn
+
+/-! ### small facts about the checked operations and the list inputs -/
+theorem gr_ckAdd_ok {a b : Nat} (h : a + b < 2^64) : ckAdd a b = .ok (a + b) := by
+  unfold ckAdd; rw [if_pos (by rw [B64_eq]; exact h)]
+theorem gr_ckMul_ok {a b : Nat} (h : a * b < 2^64) : ckMul a b = .ok (a * b) := by
+  unfold ckMul; rw [if_pos (by rw [B64_eq]; exact h)]
+theorem gr_ckSub_ok {a b : Nat} (h : b ≤ a) : ckSub a b = .ok (a - b) := by
+  unfold ckSub; rw [if_pos h]
+
+theorem gr_idxMod_ok (l : List Modulus) (i : Nat) (d : Modulus) (h : i < l.length) : GenR.idxMod l i = .ok (l.getD i d) := by
+  unfold GenR.idxMod; rw [List.getD_eq_getElem?_getD, List.getElem?_eq_getElem h]; rfl
+theorem gr_idxOp_ok (l : List MulOperand) (i : Nat) (d : MulOperand) (h : i < l.length) : GenR.idxOp l i = .ok (l.getD i d) := by
+  unfold GenR.idxOp; rw [List.getD_eq_getElem?_getD, List.getElem?_eq_getElem h]; rfl
+
+def mulOpV (x : Nat) (y : MulOperand) (m : Modulus) : Nat :=
+  if mulOperandModLazy x y m ≥ m.value then mulOperandModLazy x y m - m.value else mulOperandModLazy x y m
+/-- `multiply_u64operand_mod` never traps -/
+theorem gr_mulOperandMod (x : Nat) (y : MulOperand) (m : Modulus) : mulOperandMod x y m = .ok (mulOpV x y m) := by
+  unfold mulOperandMod mulOpV
+  dsimp only
+  by_cases h : mulOperandModLazy x y m ≥ m.value
+  · rw [if_pos h, if_pos h]; exact gr_ckSub_ok h
+  · rw [if_neg h, if_neg h]; rfl
+
+theorem gr_getD_mem_lt {l : List Nat} {B : Nat} (h : ∀ x ∈ l, x < B) (hB : 0 < B) (j : Nat) : l.getD j 0 < B := by
+  rw [List.getD_eq_getElem?_getD]
+  by_cases hj : j < l.length
+  · rw [List.getElem?_eq_getElem hj]; exact h _ (List.getElem_mem hj)
+  · rw [List.getElem?_eq_none (by omega)]; exact hB
+
+theorem gr_ext_getD {α : Type} (d : α) (l1 l2 : List α) (hl : l1.length = l2.length) (h : ∀ j, j < l1.length → l1.getD j d = l2.getD j d) :
+    l1 = l2 := by
+  apply List.ext_getElem hl
+  intro j h1 h2
+  have := h j h1
+  rw [List.getD_eq_getElem?_getD, List.getD_eq_getElem?_getD, List.getElem?_eq_getElem h1, List.getElem?_eq_getElem h2] at this
+  exact this
+
+/-! ### `RNSTool::divide_and_round_q_last_inplace` -/
+
+/-- component `i` after the routine, as a function of the (already `+ half`) last component and the old component -/
+def gr_darComp (b : Modulus) (half : Nat) (inv : MulOperand) (lastc ci : List Nat) : List Nat :=
+  ((List.range' 0 ci.length).map (fun j => subModV (ci.getD j 0)
+      ((lastc.map (fun x => subModV (x % b.value) (half % b.value) b)).getD j 0) b)).map (fun x => mulOpV x inv b)
+
+def gr_dflt : Modulus := ⟨0,0,0,0,0⟩
+
+/-- the component list after `k` iterations of the outer loop starting at `i` -/
+def gr_darFold (qs : List Modulus) (invs : List MulOperand) (half s : Nat) : Nat → Nat → List (List Nat) → List (List Nat)
+  | 0, _, cs => cs
+  | k+1, i, cs => gr_darFold qs invs half s k (i+1)
+      (cs.set i (gr_darComp (qs.getD i gr_dflt) half (invs.getD i default) (cs.getD (s-1) []) (cs.getD i [])))
+
+theorem gr_dar_loop (qs : List Modulus) (invs : List MulOperand) (half s n : Nat)
+    (hqs : qs.length = s) (hinv : s - 1 ≤ invs.length) (hq : ∀ i, i < s → (qs.getD i gr_dflt).WF) (hsn : s * n < 2^64) (hs64 : s < 2^64) (hh : half < 2^64) :
+    ∀ k i (cs : List (List Nat)) (temp : List Nat), i + k = s - 1 → cs.length = s → (∀ c ∈ cs, c.length = n) → temp.length = n →
+      (∀ x ∈ cs.getD (s-1) [], x < 2^64) →
+      GenR.divide_and_round_q_last_inplace_loop1 s n ((s-1)*n) half qs invs k i cs.flatten temp
+        = .ok (gr_darFold qs invs half s k i cs).flatten := by
+  intro k
+  induction k with
+  | zero => intro i cs temp _ _ _ _ _; rfl
+  | succ k ih =>
+    intro i cs temp hik hcs hn ht hl
+    have his : i < s - 1 := by omega
+    have hs1 : s - 1 < s := by omega
+    have hb := hq i (by omega)
+    have hmul : ∀ a, a ≤ s → a * n < 2^64 := fun a ha => Nat.lt_of_le_of_lt (Nat.mul_le_mul_right n ha) hsn
+    have hlastlen : (cs.getD (s-1) []).length = n := by
+      apply hn; rw [List.getD_eq_getElem?_getD, List.getElem?_eq_getElem (by omega)]; exact List.getElem_mem _
+    have hcilen : (cs.getD i []).length = n := by
+      apply hn; rw [List.getD_eq_getElem?_getD, List.getElem?_eq_getElem (by omega)]; exact List.getElem_mem _
+    have e1 : GenR.idxMod qs i = .ok (qs.getD i gr_dflt) := gr_idxMod_ok qs i _ (by omega)
+    have e2 : ckAdd ((s-1)*n) n = .ok ((s-1)*n + n) := gr_ckAdd_ok (by have := hmul s (Nat.le_refl _); rw [← Nat.succ_mul]; rwa [show (s-1).succ = s by omega])
+    have e3 : GenR.slice cs.flatten ((s-1)*n) ((s-1)*n + n) = .ok (cs.getD (s-1) []) := gr_slice_flat n cs (s-1) hn (by omega)
+    have e4 : GenR.modulo (cs.getD (s-1) []) (qs.getD i gr_dflt) temp = .ok ((cs.getD (s-1) []).map (fun x => x % (qs.getD i gr_dflt).value)) := by
+      rw [gr_modulo_eq _ _ _ (by rw [ht, hlastlen])]
+      exact gr_mapM_ok _ _ _ (fun x hx => barrett64_exact hb (hl x hx))
+    have e5 : GenW.barrett_reduce_u64 half (qs.getD i gr_dflt) = .ok (half % (qs.getD i gr_dflt).value) := by
+      rw [gw_barrett_reduce_u64_eq]; exact barrett64_exact hb hh
+    have e6 : GenR.sub_scalar_inplace ((cs.getD (s-1) []).map (fun x => x % (qs.getD i gr_dflt).value)) (half % (qs.getD i gr_dflt).value) (qs.getD i gr_dflt)
+        = .ok ((cs.getD (s-1) []).map (fun x => subModV (x % (qs.getD i gr_dflt).value) (half % (qs.getD i gr_dflt).value) (qs.getD i gr_dflt))) := by
+      rw [gr_sub_scalar_inplace_eq, gr_mapM_ok _ (fun x => subModV x (half % (qs.getD i gr_dflt).value) (qs.getD i gr_dflt)) _ (fun x _ => gr_subMod _ _ _), List.map_map]; rfl
+    have e7 : ckMul i n = .ok (i * n) := gr_ckMul_ok (hmul i (by omega))
+    have e8 : ckAdd i 1 = .ok (i + 1) := gr_ckAdd_ok (by omega)
+    have e9 : ckMul (i+1) n = .ok (i * n + n) := by rw [gr_ckMul_ok (hmul (i+1) (by omega)), Nat.succ_mul]
+    have e10 : GenR.slice cs.flatten (i*n) (i*n + n) = .ok (cs.getD i []) := gr_slice_flat n cs i hn (by omega)
+    have e11 : GenR.sub_inplace (cs.getD i []) ((cs.getD (s-1) []).map (fun x => subModV (x % (qs.getD i gr_dflt).value) (half % (qs.getD i gr_dflt).value) (qs.getD i gr_dflt))) (qs.getD i gr_dflt)
+        = .ok ((List.range' 0 (cs.getD i []).length).map (fun j => subModV ((cs.getD i []).getD j 0)
+            (((cs.getD (s-1) []).map (fun x => subModV (x % (qs.getD i gr_dflt).value) (half % (qs.getD i gr_dflt).value) (qs.getD i gr_dflt))).getD j 0) (qs.getD i gr_dflt))) := by
+      rw [gr_sub_inplace_eq _ _ _ (by rw [List.length_map, hcilen, hlastlen])]
+      exact gr_mapM_ok _ _ _ (fun j _ => gr_subMod _ _ _)
+    obtain ⟨d, hd⟩ : ∃ d, d = (List.range' 0 (cs.getD i []).length).map (fun j => subModV ((cs.getD i []).getD j 0)
+            (((cs.getD (s-1) []).map (fun x => subModV (x % (qs.getD i gr_dflt).value) (half % (qs.getD i gr_dflt).value) (qs.getD i gr_dflt))).getD j 0) (qs.getD i gr_dflt)) := ⟨_, rfl⟩
+    rw [← hd] at e11
+    have hdlen : d.length = n := by rw [hd, List.length_map, List.length_range', hcilen]
+    have e12 : GenR.splice cs.flatten (i*n) d = (cs.set i d).flatten := gr_splice_flat n cs i d hn (by omega) hdlen
+    have hn' := gr_set_length_mem n cs i d hn hdlen
+    have e13 : GenR.slice (cs.set i d).flatten (i*n) (i*n + n) = .ok d := by
+      rw [gr_slice_flat n (cs.set i d) i hn' (by rw [List.length_set]; omega), List.getD_eq_getElem?_getD, List.getElem?_set_self (by omega)]; rfl
+    have e14 : GenR.idxOp invs i = .ok (invs.getD i default) := gr_idxOp_ok invs i _ (by omega)
+    have e15 : GenR.multiply_operand_inplace d (invs.getD i default) (qs.getD i gr_dflt) = .ok (d.map (fun x => mulOpV x (invs.getD i default) (qs.getD i gr_dflt))) := by
+      rw [gr_multiply_operand_inplace_eq]; exact gr_mapM_ok _ _ _ (fun x _ => gr_mulOperandMod _ _ _)
+    have e16 : GenR.splice (cs.set i d).flatten (i*n) (d.map (fun x => mulOpV x (invs.getD i default) (qs.getD i gr_dflt)))
+        = (cs.set i (d.map (fun x => mulOpV x (invs.getD i default) (qs.getD i gr_dflt)))).flatten := by
+      rw [gr_splice_flat n (cs.set i d) i _ hn' (by rw [List.length_set]; omega) (by rw [List.length_map]; exact hdlen), List.set_set]
+    rw [GenR.divide_and_round_q_last_inplace_loop1]
+    simp only [e1, e2, e3, e4, e5, e6, e7, e8, e9, e10, e11, e12, e13, e14, e15, e16, bind, Except.bind]
+    have hcomp : d.map (fun x => mulOpV x (invs.getD i default) (qs.getD i gr_dflt))
+        = gr_darComp (qs.getD i gr_dflt) half (invs.getD i default) (cs.getD (s-1) []) (cs.getD i []) := by rw [hd]; rfl
+    rw [hcomp, gr_darFold]
+    have hcl : (gr_darComp (qs.getD i gr_dflt) half (invs.getD i default) (cs.getD (s-1) []) (cs.getD i [])).length = n := by
+      rw [← hcomp, List.length_map]; exact hdlen
+    refine ih (i+1) _ _ (by omega) (by rw [List.length_set]; exact hcs) (gr_set_length_mem n cs i _ hn hcl) (by rw [List.length_map]; exact hlastlen) ?_
+    rw [List.getD_eq_getElem?_getD, List.getElem?_set_ne (by omega), ← List.getD_eq_getElem?_getD]
+    exact hl
+
+theorem gr_mapM_forall {α β : Type} (f : α → R β) (P : β → Prop) (hf : ∀ x y, f x = .ok y → P y) :
+    ∀ (l : List α) (r : List β), l.mapM f = .ok r → ∀ y ∈ r, P y := by
+  intro l
+  induction l with
+  | nil => intro r h; rw [gr_mapM_nil] at h; cases h; intro y hy; cases hy
+  | cons a l ih =>
+    intro r h
+    rw [gr_mapM_cons] at h
+    cases hfa : f a with
+    | error e => rw [hfa] at h; cases h
+    | ok b =>
+      rw [hfa, gr_ok_bind] at h
+      cases hl : l.mapM f with
+      | error e => rw [hl] at h; cases h
+      | ok bs =>
+        rw [hl, gr_ok_bind] at h; cases h
+        intro y hy
+        rcases List.mem_cons.mp hy with h1 | h1
+        · rw [h1]; exact hf a b hfa
+        · exact ih bs hl y h1
+
+theorem gr_addMod_lt (x y : Nat) (m : Modulus) (z : Nat) (h : addMod x y m = .ok z) : z < 2^64 := by
+  unfold addMod ckAdd at h
+  by_cases hc : x + y < B64
+  · rw [if_pos hc] at h
+    simp only [bind, Except.bind] at h
+    rw [B64_eq] at hc
+    by_cases h2 : x + y ≥ m.value
+    · rw [if_pos h2, gr_ckSub_ok h2] at h; cases h; omega
+    · rw [if_neg h2] at h; cases h; exact hc
+  · rw [if_neg hc] at h; cases h
+
+theorem gr_getD_set_ne {α : Type} (l : List α) (i j : Nat) (x d : α) (h : i ≠ j) : (l.set i x).getD j d = l.getD j d := by
+  rw [List.getD_eq_getElem?_getD, List.getElem?_set_ne h, ← List.getD_eq_getElem?_getD]
+theorem gr_getD_set_self {α : Type} (l : List α) (i : Nat) (x d : α) (h : i < l.length) : (l.set i x).getD i d = x := by
+  rw [List.getD_eq_getElem?_getD, List.getElem?_set_self h]; rfl
+theorem gr_getD_append_left {α : Type} (l1 l2 : List α) (j : Nat) (d : α) (h : j < l1.length) : (l1 ++ l2).getD j d = l1.getD j d := by
+  rw [List.getD_eq_getElem?_getD, List.getElem?_append_left h, ← List.getD_eq_getElem?_getD]
+theorem gr_getD_append_right {α : Type} (l1 l2 : List α) (j : Nat) (d : α) (h : l1.length ≤ j) : (l1 ++ l2).getD j d = l2.getD (j - l1.length) d := by
+  rw [List.getD_eq_getElem?_getD, List.getElem?_append_right h, ← List.getD_eq_getElem?_getD]
+theorem gr_getD_map_range' {α : Type} (F : Nat → α) (k j : Nat) (d : α) (h : j < k) : ((List.range' 0 k).map F).getD j d = F j := by
+  rw [List.getD_eq_getElem?_getD, List.getElem?_map, List.getElem?_range' h]; simp
+
+/-- the component list after the whole outer loop: components `i .. i+k-1` replaced, the others untouched -/
+theorem gr_darFold_getD (qs : List Modulus) (invs : List MulOperand) (half s : Nat) :
+    ∀ k i (cs : List (List Nat)), i + k ≤ s - 1 → cs.length = s →
+      (gr_darFold qs invs half s k i cs).length = s ∧ ∀ j, (gr_darFold qs invs half s k i cs).getD j [] =
+        if i ≤ j ∧ j < i + k then gr_darComp (qs.getD j gr_dflt) half (invs.getD j default) (cs.getD (s-1) []) (cs.getD j []) else cs.getD j [] := by
+  intro k
+  induction k with
+  | zero => intro i cs _ hcs; exact ⟨hcs, fun j => by rw [if_neg (by omega)]; rfl⟩
+  | succ k ih =>
+    intro i cs hik hcs
+    rw [gr_darFold]
+    obtain ⟨h1, h2⟩ := ih (i+1) (cs.set i (gr_darComp (qs.getD i gr_dflt) half (invs.getD i default) (cs.getD (s-1) []) (cs.getD i [])))
+      (by omega) (by rw [List.length_set]; exact hcs)
+    refine ⟨h1, fun j => ?_⟩
+    rw [h2 j]
+    have hlast : ∀ x, (cs.set i x).getD (s-1) [] = cs.getD (s-1) [] := by
+      intro x; rw [List.getD_eq_getElem?_getD, List.getElem?_set_ne (by omega), ← List.getD_eq_getElem?_getD]
+    rw [hlast]
+    by_cases hj : j = i
+    · subst hj
+      rw [if_neg (by omega), if_pos (by omega), List.getD_eq_getElem?_getD, List.getElem?_set_self (by omega)]; rfl
+    · have : (cs.set i (gr_darComp (qs.getD i gr_dflt) half (invs.getD i default) (cs.getD (s-1) []) (cs.getD i []))).getD j [] = cs.getD j [] := by
+        rw [List.getD_eq_getElem?_getD, List.getElem?_set_ne (by omega), ← List.getD_eq_getElem?_getD]
+      rw [this]
+      by_cases hc : i + 1 ≤ j ∧ j < i + 1 + k
+      · rw [if_pos hc, if_pos (by omega)]
+      · rw [if_neg hc, if_neg (by omega)]
+
+/-- the generated routine on a flat buffer of `s` components of length `n` -/
+theorem gr_dar_list (qs : List Modulus) (invs : List MulOperand) (s n : Nat) (cs : List (List Nat))
+    (hs : 1 ≤ s) (hqs : qs.length = s) (hinv : s - 1 ≤ invs.length) (hq : ∀ i, i < s → (qs.getD i gr_dflt).WF) (hsn : s * n < 2^64) (hs64 : s < 2^64)
+    (hcs : cs.length = s) (hn : ∀ c ∈ cs, c.length = n) :
+    GenR.divide_and_round_q_last_inplace cs.flatten s qs n invs =
+      ((cs.getD (s-1) []).mapM (fun x => addMod x ((qs.getD (s-1) gr_dflt).value / 2) (qs.getD (s-1) gr_dflt)) >>= fun lastc =>
+        .ok ((List.range' 0 (s-1)).map (fun i => gr_darComp (qs.getD i gr_dflt) ((qs.getD (s-1) gr_dflt).value / 2) (invs.getD i default) lastc (cs.getD i []))
+              ++ [lastc]).flatten) := by
+  have hmul : ∀ a, a ≤ s → a * n < 2^64 := fun a ha => Nat.lt_of_le_of_lt (Nat.mul_le_mul_right n ha) hsn
+  have hL := hq (s-1) (by omega)
+  have e1 : ckSub s 1 = .ok (s-1) := gr_ckSub_ok hs
+  have e2 : GenR.idxMod qs (s-1) = .ok (qs.getD (s-1) gr_dflt) := gr_idxMod_ok qs _ _ (by omega)
+  have e3 : ckMul (s-1) n = .ok ((s-1)*n) := gr_ckMul_ok (hmul _ (by omega))
+  have e4 : ckAdd ((s-1)*n) n = .ok ((s-1)*n + n) := gr_ckAdd_ok (by have := hmul s (Nat.le_refl _); rw [← Nat.succ_mul]; rwa [show (s-1).succ = s by omega])
+  have e5 : GenR.slice cs.flatten ((s-1)*n) ((s-1)*n + n) = .ok (cs.getD (s-1) []) := gr_slice_flat n cs (s-1) hn (by omega)
+  have hhalf : (qs.getD (s-1) gr_dflt).value >>> 1 = (qs.getD (s-1) gr_dflt).value / 2 := by rw [Nat.shiftRight_eq_div_pow]
+  unfold GenR.divide_and_round_q_last_inplace
+  simp only [e1, e2, e3, e4, e5, bind, Except.bind, hhalf, gr_add_scalar_inplace_eq]
+  cases hm : (cs.getD (s-1) []).mapM (fun x => addMod x ((qs.getD (s-1) gr_dflt).value / 2) (qs.getD (s-1) gr_dflt)) with
+  | error e => rfl
+  | ok lastc =>
+    dsimp only
+    have hlastlen : (cs.getD (s-1) []).length = n := by
+      apply hn; rw [List.getD_eq_getElem?_getD, List.getElem?_eq_getElem (by omega)]; exact List.getElem_mem _
+    have hll : lastc.length = n := by rw [gr_mapM_length _ _ _ hm, hlastlen]
+    have hlt : ∀ x ∈ lastc, x < 2^64 := gr_mapM_forall _ (fun z => z < 2^64) (fun x y h => gr_addMod_lt _ _ _ _ h) _ _ hm
+    rw [gr_splice_flat n cs (s-1) lastc hn (by omega) hll]
+    have hlastget : (cs.set (s-1) lastc).getD (s-1) [] = lastc := by
+      rw [List.getD_eq_getElem?_getD, List.getElem?_set_self (by omega)]; rfl
+    rw [gr_dar_loop qs invs _ s n hqs hinv hq hsn hs64 (by have := hL.lt; omega) (s-1) 0 (cs.set (s-1) lastc) (List.replicate n 0) (by omega)
+      (by rw [List.length_set]; exact hcs) (gr_set_length_mem n cs _ _ hn hll) List.length_replicate (by rw [hlastget]; exact hlt)]
+    congr 2
+    obtain ⟨h1, h2⟩ := gr_darFold_getD qs invs ((qs.getD (s-1) gr_dflt).value / 2) s (s-1) 0 (cs.set (s-1) lastc) (by omega) (by rw [List.length_set]; exact hcs)
+    apply gr_ext_getD [] _ _ (by rw [h1, List.length_append, List.length_map, List.length_range']; simp; omega)
+    intro j hj
+    rw [h2 j, hlastget]
+    by_cases hjs : j < s - 1
+    · rw [if_pos (by omega), gr_getD_set_ne _ _ _ _ _ (by omega), gr_getD_append_left _ _ _ _ (by rw [List.length_map, List.length_range']; exact hjs),
+        gr_getD_map_range' _ _ _ _ hjs]
+    · have : j = s - 1 := by omega
+      rw [if_neg (by omega), this, hlastget, gr_getD_append_right _ _ _ _ (by rw [List.length_map, List.length_range']),
+        List.length_map, List.length_range', Nat.sub_self]
+      rfl
